@@ -964,6 +964,15 @@ func Run(c *vk.Ctx) {
 	if c.Replay != "" {
 		var rc Case
 		c.LoadReplay(&rc)
+		if rc.Kind == "dupsig" {
+			f, _ := runDupSig(rc.Label)
+			fmt.Printf("replay kind=dupsig order=%s\nresult: %s\n", rc.Label, map[bool]string{true: "conforms", false: f}[f == ""])
+			if f != "" {
+				c.Violate("replay dupsig", f, rc)
+			}
+			c.Finish()
+			return
+		}
 		if rc.Kind == "pair" {
 			for _, pc := range pairCases() {
 				if pc.label == rc.Label {
@@ -1089,6 +1098,24 @@ func Run(c *vk.Ctx) {
 				fmt.Sprintf("([]byte, error) supplied %s must be delivered position by position as declared; via %s: %s", pc.label, f.via, f.detail), cc)
 		}
 	}
+	for i, order := range []string{"v1,v2", "v2,v1"} {
+		if !c.Mine(int64(len(cs) + len(pcs) + i)) {
+			continue
+		}
+		f, j := runDupSig(order)
+		c.Res.Traces++
+		c.Res.States++
+		c.Res.Transitions += 12
+		c.Res.Evaluations += j
+		nChecks += j
+		perClass["same-printed-signature"]++
+		cs0 := Case{Kind: "dupsig", Class: "same-printed-signature", Label: order, Text: "functions of two packages whose types print the same, configured in the order " + order}
+		if f == "" {
+			c.Distinct("dupsig/" + order)
+			continue
+		}
+		c.Violate(fmt.Sprintf("kind=dupsig class=same-printed-signature order=%s outcome=%s", order, f[:indexColon(f)]), f, cs0)
+	}
 	c.Res.Extra["n_cells_deliver"] = nDeliver
 	c.Res.Extra["n_cells_reject"] = nReject
 	c.Res.Extra["n_cells_unjudged"] = nUnjudged
@@ -1100,4 +1127,13 @@ func Run(c *vk.Ctx) {
 		c.Res.Extra["unjudged "+k] = v
 	}
 	c.Finish()
+}
+
+func indexColon(s string) int {
+	for i := 0; i < len(s); i++ {
+		if s[i] == ':' {
+			return i
+		}
+	}
+	return len(s)
 }
